@@ -55,6 +55,25 @@ theorem vector_hits_filtered (p : Plan κ S) (segs : List (Segment κ S)) (limit
   obtain ⟨k, hk, rfl⟩ := hh
   exact candKeys_eligible false p segs k (mem_dedupKeys _ k hk)
 
+/-- every hit of a vector-only request carries a `vector_score` -/
+theorem vector_only_hits_have_vector_score (p : Plan κ S) (segs : List (Segment κ S)) (limit : Nat)
+    (h : Hit S) (hh : h ∈ searchVectorOnly p segs limit) : h.vectorScore.isSome = true := by
+  unfold searchVectorOnly at hh
+  have hh := (mem_isort _ _ _).mp (List.mem_of_mem_take hh)
+  rw [List.mem_map] at hh
+  obtain ⟨k, hk, rfl⟩ := hh
+  have hk := mem_dedupKeys _ k hk
+  unfold candKeys at hk
+  rw [List.mem_flatMap] at hk
+  obtain ⟨m, hm, hkm⟩ := hk
+  rw [List.mem_map] at hkm
+  obtain ⟨x, hx, rfl⟩ := hkm
+  have hpos := hybridAcc_of_mem (κ := κ) (zero : S) x.seg x.doc p.clauses
+    (p.clauses.map (clauseCands false segs)) (zero, zero, false) m x (by simp) hm hx rfl rfl
+  simp only
+  rw [hybridScore_vectorScore]
+  simp [hpos]
+
 /-- **vector_hits_filtered** (hybrid requests): a hit that carries a `vector_score` is an
 eligible candidate (live, filters, vector present, text match) of some clause; a hit without
 one is a text hit of its segment. -/
